@@ -394,11 +394,16 @@ impl LuaEngine {
             LuaValue::Table(table) => {
                 // A table with a single "err" or "ok" field is an error / status reply
                 // (this is what redis.error_reply and redis.status_reply build)
+                // (status and error replies are single lines: CR and LF in the script's text are
+                // replaced, or the text could forge further replies)
                 if let Ok(LuaValue::String(msg)) = table.get::<LuaValue>("err") {
-                    return RespFrame::Error(Arc::new(msg.as_bytes().to_vec()));
+                    return RespFrame::error(msg.as_bytes().to_vec());
                 }
                 if let Ok(LuaValue::String(msg)) = table.get::<LuaValue>("ok") {
-                    return RespFrame::SimpleString(Arc::new(msg.as_bytes().to_vec()));
+                    let line: Vec<u8> = msg.as_bytes().iter()
+                        .map(|&b| if b == b'\r' || b == b'\n' { b' ' } else { b })
+                        .collect();
+                    return RespFrame::SimpleString(Arc::new(line));
                 }
                 
                 // Convert Lua table to Redis array
